@@ -44,6 +44,10 @@ REQUIRED = {
     'ta_proxy_signer_update': ('CaAdmin', None), 'ta_proxy_signer_make_request': ('CaAdmin', None), 'ta_proxy_signer_get_request': ('CaAdmin', None),
     'ta_proxy_signer_process_response': ('CaAdmin', None), 'ta_proxy_children_add': ('CaAdmin', None),
 }
+# the statement: "and the testbed self-service endpoints when testbed mode is on" (children / publishers of the testbed CA)
+TESTBED_SELF_SERVICE = ['ca_add_child', 'ca_child_remove', 'ca_parent_response', 'add_publisher', 'remove_publisher', 'repository_response']
+# roles.rst: ca-admin is "also required for access to the trust anchor module" (the TA is addressed as a CA there)
+TA_MODULE_ALSO = ['ca_parent_response']
 PERMISSIONS = ['Login', 'PubAdmin', 'PubList', 'PubRead', 'PubCreate', 'PubDelete', 'CaList', 'CaRead', 'CaCreate', 'CaUpdate', 'CaAdmin', 'CaDelete',
                'RoutesRead', 'RoutesUpdate', 'RoutesAnalysis', 'AspasRead', 'AspasUpdate', 'BgpsecRead', 'BgpsecUpdate', 'RtaList', 'RtaRead', 'RtaUpdate']
 
@@ -79,7 +83,16 @@ def facade_stubs():
                 perm, caarg = req
                 res = f'Some({caarg})' if caarg else 'None::<CaHandle>'
                 perms = perm if isinstance(perm, list) else [perm]
-                pre = '\n    requires ' + ' || '.join(f'granted_k(k) == Grant::Permitted(Permission::{pm}, {res})' for pm in perms)
+                alts = [f'granted_k(k) == Grant::Permitted(Permission::{pm}, {res})' for pm in perms]
+                if caarg:
+                    # listing pattern: no blanket check, but the caller's own role was consulted for this very CA
+                    alts += [f'(granted_k(k) is Unchecked && auth_allows(granted_k(k)->Unchecked_0, Permission::{pm}, {res}))' for pm in perms]
+                if name in TESTBED_SELF_SERVICE:
+                    tb = f' && {caarg} == testbed_ca_spec()' if caarg else ''
+                    alts.append(f'(granted_k(k) is Unchecked && granted_k(k)->Unchecked_1{tb})')
+                if name in TA_MODULE_ALSO:
+                    alts.append(f'(granted_k(k) == Grant::Permitted(Permission::CaAdmin, None::<CaHandle>) && {caarg} == ta_handle_spec())')
+                pre = '\n    requires ' + '\n        || '.join(alts)
             inside.append(f'pub assume_specification [KrillManager::{name}] (k: &KrillManager{", " if args else ""}{argl}) -> (r: {ret}){pre};')
     missing = [m for m in REQUIRED if m not in seen]
     return outside, inside, missing
@@ -142,7 +155,7 @@ impl HttpResponse {
     pub fn not_found() -> Self { unimplemented!() }
     pub fn method_not_allowed() -> Self { unimplemented!() }
     pub fn xml(_b: Vec<u8>) -> Self { unimplemented!() }
-    pub fn text(_b: Vec<u8>) -> Self { unimplemented!() }
+    pub fn text<T>(_b: T) -> Self { unimplemented!() }
     pub fn forbidden(_s: String) -> Self { unimplemented!() }
 }
 '''
@@ -161,7 +174,17 @@ PRELUDE_IN = '''
 #[verifier::external_type_specification] #[verifier::external_body] pub struct ExPathIter<'a>(PathIter<'a>);
 
 /// what the request has been cleared for on its way to the server facade
-pub enum Grant { Permitted(Permission, Option<CaHandle>), Unchecked }
+pub enum Grant {
+    /// proceed_permitted(P, resource) succeeded
+    Permitted(Permission, Option<CaHandle>),
+    /// proceed_unchecked: no permission established; carries the caller's auth info and whether testbed mode is on
+    Unchecked(AuthInfo, bool),
+}
+pub uninterp spec fn testbed_on(r: Request<'_>) -> bool;
+/// the caller's role grants P for the resource (AuthInfo::has_permission, decided in unit c13_roles)
+pub uninterp spec fn auth_allows(a: AuthInfo, p: Permission, res: Option<CaHandle>) -> bool;
+pub uninterp spec fn ta_handle_spec() -> CaHandle;
+pub uninterp spec fn testbed_ca_spec() -> CaHandle;
 pub uninterp spec fn granted_req(r: AuthedRequest<'_>) -> Grant;
 pub uninterp spec fn granted_srv(s: &HttpServer) -> Grant;
 pub uninterp spec fn granted_k(k: &KrillManager) -> Grant;
@@ -173,14 +196,14 @@ pub assume_specification<'a, 'b> [Request::<'a>::method] (r: &'b Request<'a>) ->
 pub assume_specification<'a> [Request::<'a>::check_get] (r: &Request<'a>) -> (o: Result<(), HttpResponse>);
 pub assume_specification<'a> [Request::<'a>::check_post] (r: &Request<'a>) -> (o: Result<(), HttpResponse>);
 pub assume_specification<'a> [Request::<'a>::check_delete] (r: &Request<'a>) -> (o: Result<(), HttpResponse>);
-pub assume_specification<'a> [Request::<'a>::testbed_enabled] (r: &Request<'a>) -> (o: bool);
+pub assume_specification<'a> [Request::<'a>::testbed_enabled] (r: &Request<'a>) -> (o: bool) ensures o == testbed_on(*r);
 pub assume_specification<'a> [Request::<'a>::user_agent] (r: &Request<'a>) -> (o: Option<String>);
 pub assume_specification<'a> [Request::<'a>::check_permission] (r: &Request<'a>, p: Permission, res: Option<&CaHandle>) -> (o: Result<(), HttpResponse>)
     ensures o is Ok ==> checked(*r, p, oh(res));
 pub assume_specification<'a> [Request::<'a>::proceed_permitted] (r: Request<'a>, p: Permission, res: Option<&CaHandle>) -> (o: Result<(AuthedRequest<'a>, AuthInfo), HttpResponse>)
     ensures o is Ok ==> granted_req(o->Ok_0.0) == Grant::Permitted(p, oh(res));
 pub assume_specification<'a> [Request::<'a>::proceed_unchecked] (r: Request<'a>) -> (o: (AuthedRequest<'a>, AuthInfo))
-    ensures granted_req(o.0) == Grant::Unchecked;
+    ensures granted_req(o.0) == Grant::Unchecked(o.1, testbed_on(r));
 pub assume_specification<'a> [AuthedRequest::<'a>::empty] (r: AuthedRequest<'a>) -> (o: Result<&'a HttpServer, Error>)
     ensures o is Ok ==> granted_srv(o->Ok_0) == granted_req(r);
 pub assume_specification<'a> [AuthedRequest::<'a>::read_bytes] (r: AuthedRequest<'a>) -> (o: Result<(&'a HttpServer, Bytes), Error>)
@@ -193,19 +216,20 @@ pub assume_specification<'a> [AuthedRequest::<'a>::read_rfc8181_bytes] (r: Authe
     ensures o is Ok ==> granted_srv(o->Ok_0.0) == granted_req(r);
 pub assume_specification [HttpServer::krill] (s: &HttpServer) -> (k: &KrillManager) ensures granted_k(k) == granted_srv(s);
 pub assume_specification [AuthInfo::into_actor] (a: AuthInfo) -> (o: Actor);
-pub assume_specification [AuthInfo::has_permission] (a: &AuthInfo, p: Permission, r: Option<&CaHandle>) -> (o: bool);
+pub assume_specification [AuthInfo::has_permission] (a: &AuthInfo, p: Permission, r: Option<&CaHandle>) -> (o: bool) ensures o == auth_allows(*a, p, oh(r));
 pub assume_specification<'a, 'b> [PathIter::<'a>::next] (p: &'b mut PathIter<'a>) -> (o: Option<&'a str>);
 pub assume_specification<'a> [PathIter::<'a>::check_exhausted] (p: &PathIter<'a>) -> (o: Result<(), HttpResponse>);
 pub assume_specification<'a, T> [PathIter::<'a>::parse_next::<T>] (p: &mut PathIter<'a>) -> (o: Result<T, HttpResponse>);
 pub assume_specification<'a, T> [PathIter::<'a>::parse_opt_next::<T>] (p: &mut PathIter<'a>) -> (o: Result<Option<T>, HttpResponse>);
 pub assume_specification<'a, T> [PathIter::<'a>::parse_opt_next_trailing_slash::<T>] (p: &mut PathIter<'a>) -> (o: Result<Option<T>, HttpResponse>);
+pub assume_specification<'a, 'b> [PathIter::<'a>::remaining] (p: &'b PathIter<'a>) -> (o: Option<&'b str>);
 pub assume_specification<'a> [PathIter::<'a>::strip_trailing_slash] (p: &PathIter<'a>) -> (o: PathIter<'a>);
 pub assume_specification<T> [HttpResponse::json::<T>] (t: &T) -> (o: HttpResponse);
 pub assume_specification [HttpResponse::ok] () -> (o: HttpResponse);
 pub assume_specification [HttpResponse::not_found] () -> (o: HttpResponse);
 pub assume_specification [HttpResponse::method_not_allowed] () -> (o: HttpResponse);
 pub assume_specification [HttpResponse::xml] (b: Vec<u8>) -> (o: HttpResponse);
-pub assume_specification [HttpResponse::text] (b: Vec<u8>) -> (o: HttpResponse);
+pub assume_specification<T> [HttpResponse::text::<T>] (b: T) -> (o: HttpResponse);
 pub assume_specification [HttpResponse::forbidden] (s: String) -> (o: HttpResponse);
 pub assume_specification [<DispatchError as From<HttpResponse>>::from] (e: HttpResponse) -> (o: DispatchError);
 pub assume_specification [<DispatchError as From<RunError>>::from] (e: RunError) -> (o: DispatchError);
@@ -213,7 +237,11 @@ pub assume_specification [<DispatchError as From<Error>>::from] (e: Error) -> (o
 '''
 
 
-def build_file(fname, unit_name, title, skip=(), extra=None):
+SUBMODS = ['api', 'auth', 'bulk', 'cas', 'metrics', 'pubd', 'stats', 'ta', 'testbed']
+LOGIN_GATED = ['bulk', 'cas', 'pubd', 'ta']     # everything under the versioned API needs the login permission
+
+
+def build_file(fname, unit_name, title, skip=(), extra=None, handler_requires=None, no_isolation=()):
     U = Unit(unit_name, 'C13', title)
     prelude.strings(U)
     U.auto_opaque = True
@@ -233,6 +261,22 @@ def build_file(fname, unit_name, title, skip=(), extra=None):
         extra(U)
     if 'Error' not in U.enum_variants:
         U.opaque('Error', '')
+    me = fname[:-3]
+    # sibling dispatch modules: signature-only stubs; those under /api/v1 REQUIRE a successful Login check on the request
+    for m in SUBMODS:
+        if m == me:
+            continue
+        pre = '\n        requires checked(request, Permission::Login, None::<CaHandle>)' if m in LOGIN_GATED else ''
+        more = ''
+        if m == 'cas' and me == 'ta':
+            more = '    #[verifier::external_body] pub fn extract_repository_contact(ca: &CaHandle, bytes: Bytes) -> (r: Result<RepositoryContact, Error>) { unimplemented!() }\n'
+        U.add(f'''pub mod {m} {{ use super::*;
+{more}
+    #[verifier::external_body] pub fn dispatch(request: Request<'_>, path: PathIter<'_>) -> (r: Result<HttpResponse, DispatchError>){pre}
+    {{ unimplemented!() }}
+}}''')
+    from vxlib import Seg
+    U.inside.append(Seg(f'pub mod {me} {{ use super::*;\n'))
     src, items = _load(D + fname)
     fns = [e for e in items if e['kind'] == 'fn' and e.get('impl') is None and e['mod'] == '']
     for e in fns:
@@ -245,5 +289,12 @@ def build_file(fname, unit_name, title, skip=(), extra=None):
             if e['fn'] in skip:
                 U.notes.append(f'NOT COVERED handler {fname}::{e["fn"]} (filters inside an iterator closure)')
             continue
-        U.free(U.fn(D + fname, None, e['fn'], erase_async=True, ensures=[], requires=[]))
+        hr = (handler_requires or {}).get(e['fn'], (handler_requires or {}).get('*', []))
+        if e['fn'] in ((handler_requires or {}).get('!', [])):
+            hr = []
+        segs = U.fn(D + fname, None, e['fn'], erase_async=True, ensures=[], requires=hr)
+        if e['fn'] in no_isolation:
+            segs.insert(0, Seg('#[verifier::loop_isolation(false)]\n'))
+        U.free(segs)
+    U.inside.append(Seg('} // mod\n'))
     return U
